@@ -971,6 +971,7 @@ class ParseContext:
 
                 if part == "":
                     if i == len(parts) - 1 or i == 0:
+                        i -= 1
                         continue
                     while depth >= min_depth:
                         if match(i - 1, depth):
